@@ -256,3 +256,41 @@ Proof.
   intros Hob m Hw Hwf Hc. pose proof (json_round_trip Hob m Hw Hwf) as H. unfold canonical_markers in Hc.
   destruct m as [tg op]. unfold decode_msg in *. cbn [m_tags m_opts] in *. rewrite H, Hc. reflexivity.
 Qed.
+
+(* ---- element-wise agreement of the published names ---- *)
+Lemma find_assoc {B} (l : list (string * B)) k v : In (k, v) l -> NoDup (map fst l) ->
+  find (fun p => String.eqb (fst p) k) l = Some (k, v).
+Proof.
+  induction l as [|[k' v'] l IH]; intros Hin Hnd; [contradiction|].
+  cbn [find fst]. cbn [map fst] in Hnd. inversion Hnd as [|? ? Hni Hnd']; subst.
+  destruct Hin as [E|Hin].
+  - injection E as -> ->. rewrite String.eqb_refl. reflexivity.
+  - destruct (String.eqb k' k) eqn:Ek.
+    + apply String.eqb_eq in Ek. subst. exfalso. apply Hni. apply (in_map fst) in Hin. exact Hin.
+    + apply IH; assumption.
+Qed.
+
+Lemma recorded_at_in except n g : recorded_at except n g = true -> In (n, g) except.
+Proof.
+  unfold recorded_at. intros H. apply existsb_exists in H as ([a b] & Hin & E). cbn [fst snd] in E.
+  apply andb_true_iff in E as [E1 E2]. apply String.eqb_eq in E1, E2. subst. exact Hin.
+Qed.
+
+Lemma elementwise_sound except published :
+  forallb (elementwise_agree except published) (map fst server_fields) = true ->
+  forall tag selems celems gopath js jc,
+  In (tag, selems) server_fields -> NoDup (map fst server_fields) ->
+  In (tag, celems) published -> NoDup (map fst published) ->
+  In (gopath, js) selems -> In (gopath, jc) celems -> NoDup (map fst celems) ->
+  ~ In (tag, gopath) except ->
+  js = jc.
+Proof.
+  intros H tag selems celems gopath js jc Hs Hsn Hc Hcn Hjs Hjc Hcen Hex.
+  rewrite forallb_forall in H. specialize (H tag (in_map fst _ _ Hs)). cbn [fst] in H.
+  unfold elementwise_agree in H.
+  rewrite (find_assoc _ _ _ Hs Hsn), (find_assoc _ _ _ Hc Hcn) in H. cbn [option_map snd] in H.
+  rewrite forallb_forall in H. specialize (H _ Hjs). cbn [fst snd] in H.
+  apply orb_true_iff in H as [H|H]; [exfalso; apply Hex; apply recorded_at_in; exact H|].
+  unfold same_field_same_name in H. cbn [fst snd] in H.
+  rewrite (find_assoc _ _ _ Hjc Hcen) in H. cbn [snd] in H. apply path_eqb_eq in H. symmetry. exact H.
+Qed.
